@@ -62,7 +62,7 @@ func main() {
 		dst := filepath.Join(*out, fmt.Sprintf("ay%d_%s", i, base))
 		check(os.WriteFile(dst, []byte(text), 0o644))
 		overlay[abs] = dst
-		fmt.Fprintf(os.Stderr, "autoyield: %s: %d yields\n", base, ins.n)
+		fmt.Fprintf(os.Stderr, "autoyield: %s: %d yields inserted, %d hand-placed yields inside critical sections dropped\n", base, ins.n, ins.dropped)
 	}
 	if *simfile != "" {
 		dir, pkg, ok := strings.Cut(*simfile, ":")
@@ -107,6 +107,9 @@ type inserter struct {
 	base string
 	call string
 	n    int
+
+	// dropped counts hand-placed plain hooks removed from critical sections.
+	dropped int
 
 	// held is the lexical lock depth: the number of X.Lock()/X.RLock()
 	// statements seen without a matching X.Unlock()/X.RUnlock() statement.  No
@@ -167,9 +170,50 @@ func isHook(s ast.Stmt) bool {
 	return ok && strings.HasPrefix(id.Name, "simPo")
 }
 
+// isPlainHook reports whether s is a hook call that carries no mutex (one
+// argument, or nil as the second).
+func isPlainHook(s ast.Stmt) bool {
+	if !isHook(s) {
+		return false
+	}
+	ce := s.(*ast.ExprStmt).X.(*ast.CallExpr)
+	if len(ce.Args) < 2 {
+		return true
+	}
+	id, ok := ce.Args[1].(*ast.Ident)
+
+	return ok && id.Name == "nil"
+}
+
+// onceLike reports whether call looks like sync.OnceFunc/OnceValue(s) or
+// (*sync.Once).Do: a function literal passed to it runs under the Once's
+// internal mutex, so no yield may be placed inside it.
+func onceLike(call *ast.CallExpr) bool {
+	switch f := call.Fun.(type) {
+	case *ast.SelectorExpr:
+		return strings.Contains(f.Sel.Name, "Once") || f.Sel.Name == "Do"
+	case *ast.Ident:
+		return strings.Contains(f.Name, "Once")
+	case *ast.IndexExpr:
+		if sel, ok := f.X.(*ast.SelectorExpr); ok {
+			return strings.Contains(sel.Sel.Name, "Once")
+		}
+	}
+
+	return false
+}
+
 func (in *inserter) list(stmts []ast.Stmt) []ast.Stmt {
 	var out []ast.Stmt
 	for i, s := range stmts {
+		if in.held > 0 && isPlainHook(s) {
+			// A hand-placed yield without a mutex predicate that ended up
+			// inside a critical section (after a refactoring): dropped, for
+			// the same reason as no yield is inserted there.
+			in.dropped++
+
+			continue
+		}
 		prevHook := i > 0 && isHook(stmts[i-1])
 		if !isHook(s) && !prevHook && in.held == 0 {
 			if _, isDecl := s.(*ast.DeclStmt); !isDecl {
@@ -197,6 +241,20 @@ func (in *inserter) block(b *ast.BlockStmt) {
 // exprs instruments function literals inside a statement.
 func (in *inserter) exprs(n ast.Node) {
 	ast.Inspect(n, func(x ast.Node) bool {
+		if call, ok := x.(*ast.CallExpr); ok && onceLike(call) {
+			// Function literals among the arguments stay uninstrumented, and
+			// hand-placed plain hooks inside them are dropped.
+			for _, a := range call.Args {
+				if fl, isLit := a.(*ast.FuncLit); isLit {
+					outer := in.held
+					in.held = 1 << 20
+					in.block(fl.Body)
+					in.held = outer
+				}
+			}
+
+			return false
+		}
 		if fl, ok := x.(*ast.FuncLit); ok {
 			// A function literal runs at another time: its own lock depth.
 			outer := in.held
